@@ -22,15 +22,15 @@ type c03fail struct {
 }
 
 type c03run struct {
-	term    string
-	mode    int
-	seed    uint64
-	go123   bool
-	only    map[string]interface{} // replay filter
-	fails   []c03fail
-	cases   int
-	w       *iw
-	rng     *hx.Rng
+	term  string
+	mode  int
+	seed  uint64
+	go123 bool
+	only  map[string]interface{} // replay filter
+	fails []c03fail
+	cases int
+	w     *iw
+	rng   *hx.Rng
 }
 
 func (r *c03run) fail(tag, kind, seq string, split int, format string, args ...interface{}) {
